@@ -83,6 +83,35 @@ func (r *EngineRunner) execDT(f []string) (res string) {
 	kv.VerifBatch = func(id uint64) { bid = id }
 	defer func() { kv.VerifBatch = nil }()
 	arg := func(i int) []byte { b, _ := ParseTok(f[i]); return b }
+	if r.hostile {
+		// the arguments of one command are adjacent sub-slices of ONE buffer with spare capacity behind each
+		// (a network parser hands them out like that): whoever appends to one of them writes into the next
+		var parsed [][]byte
+		total := 0
+		for i := 2; i < len(f); i++ {
+			b, _ := ParseTok(f[i])
+			parsed = append(parsed, b)
+			total += len(b)
+		}
+		buf := make([]byte, 0, total+96)
+		offs := make([]int, len(parsed))
+		for i, b := range parsed {
+			offs[i] = len(buf)
+			buf = append(buf, b...)
+		}
+		pristine := append([]byte(nil), buf...)
+		arg = func(i int) []byte {
+			if parsed[i-2] == nil {
+				return nil
+			}
+			return buf[offs[i-2] : offs[i-2]+len(parsed[i-2])]
+		}
+		defer func() {
+			if !bytes.Equal(buf[:len(pristine)], pristine) {
+				r.dtFail("%s: the service wrote into the caller's argument buffer (arguments packed in one buffer were changed)", strings.Join(f[1:], " "))
+			}
+		}()
+	}
 	key := arg(2)
 	now := time.Now().UnixNano()
 	d := r.dt
